@@ -16,7 +16,10 @@ func (p *watPrinter) printFuncs() error {
 		return nil
 	}
 	for _, fn := range p.m.Funcs {
-		fmt.Fprintf(p.w, "%s(func %s", p.indent, watPrinter_identOrIndex(fn.Name))
+		fmt.Fprintf(p.w, "%s(func", p.indent)
+		if fn.Name != "" {
+			fmt.Fprintf(p.w, " %s", watPrinter_identOrIndex(fn.Name))
+		}
 
 		if fn.ExportName != "" {
 			fmt.Fprintf(p.w, " (export %q)", fn.ExportName)
